@@ -220,6 +220,14 @@ def check(ctx):
     for cfg in cfgs:
         check_structure(ctx, cfg)
         check_const_transmute(ctx, cfg)
+        # the consequence the statement draws ("viewing the array as a slice or native array never touches .. memory outside the array"): the
+        # slice views rest on the layout, and their extents are the shared rules C02.V (views of one array: exactly N elements from its address)
+        # and C10.F (one or several arrays viewed as a flat slice: exactly len * N elements)
+        from ..rules import check_views
+        from . import c10
+        check_views(ctx, cfg)
+        for f in ("slice_from_chunks", "slice_from_chunks_mut"):
+            c10.check_flatten(ctx, cfg, c10.K + f)
     run_lattice(ctx, ctx.builds["F0"], ctx.tier, "F0")
     if ctx.tier == "thorough":
         from .. import run as R
